@@ -1,4 +1,5 @@
 """C13: failed jobs are retried exactly as configured; panics are contained."""
+import os
 from . import common, generic
 
 RULE = ("one evaluation = one execution of a scripted job (call k of Execute returns nil / returns an error / panics as the script says) fired once by a "
@@ -12,6 +13,12 @@ RULE = ("one evaluation = one execution of a scripted job (call k of Execute ret
         "WithDeadline on its grandparent; no cancel(), no Stop()) x 3 modes: in the middle of the 1st / 2nd retry wait of an always-failing job (MaxRetries 3, RetryInterval 300 ms) "
         "and while attempt 1 / 2 is running (RetryInterval 20 ms, 0, -1 ms; the attempt fails after it has seen the context end): every gap between attempts >= RetryInterval - 1 ms, "
         "no two attempts entered with a context that has already ended, no attempt after the one during which the context ended (48 scenarios per round)")
+
+MISFIRE_RULE = ("; plus the same on schedulers configured with WithMisfiredChan(ch) where ch is unbuffered or its buffer of 1 is taken and nobody reads it: a slice of the cases above "
+                "(scripts of length <= 3, 30 random cases; engine run 'unread') and (qh misfire --prop C13, 6 scenarios per round, three modes) a job due every 7 ms that plays "
+                "p / ep / eep / eeep per fire time (MaxRetries 3), three run-once jobs that panic and a counting job every 5 ms: >= 6 panics of the periodic job (its next fire "
+                "times stay scheduled), every run-once job executed, the counting job keeps running, a sibling scheduled afterwards runs, Stop and Wait return (10 s each)")
+
 
 
 def run(ctx):
@@ -28,6 +35,11 @@ def run(ctx):
                                                              "--interval", "%dms" % k, "--par", str(8 * k)], "extra%d" % k, timeout=1500))
     # the scheduler's context ends by an expired deadline instead of cancel()/Stop() (harness/cmd/qh/retry5.go)
     results.append(generic.engine_run(ctx, "retry5", ["--seed", str(ctx.seed), "--n", "1" if not ctx.thorough else "6"], "deadline", timeout=300))
+    # the same with a configured MisfiredChan that nobody reads: scenarios of their own (harness/cmd/qh/misfire.go), and a slice of the retry engine's
+    # cases on schedulers that have such a channel (QH_MISFIRED_CHAN, read by mfRetryOpts)
+    results.append(generic.engine_run(ctx, "misfire", ["--prop", "C13", "--seed", str(ctx.seed), "--n", "1" if not ctx.thorough else "8"], "misfire", timeout=900))
+    results.append(generic.engine_run(ctx, "retry", ["--seed", str(ctx.seed + 17), "--maxlen", "3" if not ctx.thorough else "4", "--n", "30" if not ctx.thorough else "300"], "unread",
+                                      timeout=900, env=dict(os.environ, QH_MISFIRED_CHAN=("full", "unbuffered")[ctx.seed % 2])))
     bad = generic.proof_cov(ctx, extra_trusted=[
         "time.NewTimer fires no earlier than its duration, select/ctx.Done and defer/recover behave as the Go specification says (the model takes "
         "a completed wait, a cancelled wait and a recovered panic as atomic events; real-time gaps are observed by the harness, not proved)",
@@ -36,7 +48,7 @@ def run(ctx):
     generic.judge(ctx, results, bad, "retry",
                   widen=lambda: (generic.engine_run(ctx, "retry", ["--seed", str(ctx.seed * 7919 + k), "--maxlen", "0", "--n", "4000"], "search%d" % k, timeout=1500)
                                  for k in range(1, 3)))
-    generic.fill_coverage(ctx, results, RULE)
+    generic.fill_coverage(ctx, results, RULE + MISFIRE_RULE)
     ctx.coverage["traces_validated_against_impl"] = sum(len(r.get("ops", [])) for r in results if not r.get("failed"))   # (the deadline scenarios have no model run)
     ok = [r for r in results if not r.get("failed")]
     gaps = [r["stats"].get("min_gap_between_attempts_ns", -1) for r in ok]
